@@ -183,6 +183,7 @@ func (w *World) VerifyFunc(fn *ssa.Function, mode *Mode, prop string) (x *X, err
 			x.requires = append(x.requires, t)
 		}
 	}
+	nFresh0 := len(x.freshRefs)
 	rpc, rst, vals := fr.run(pc, st)
 	if ct != nil && mode.Functional && !rpc.IsFalse() {
 		rnames := ct.Results
@@ -193,6 +194,31 @@ func (w *World) VerifyFunc(fn *ssa.Function, mode *Mode, prop string) (x *X, err
 		postM := fr.rootEnvAt(rst, entry)
 		postM.bindResults(rnames, vals)
 		x.postEnv = postM
+		// "fresh": the (first) result is nil or an object allocated during this call
+		if ct.Fresh && !ct.Trusted && !ct.Extern {
+			entryFresh := nFresh0
+			for _, rp := range fr.rets {
+				if rp.pc.IsFalse() || len(rp.vals) == 0 {
+					continue
+				}
+				var r *Term
+				switch fn.Signature.Results().At(0).Type().Underlying().(type) {
+				case *types.Pointer, *types.Map:
+					r = rp.vals[0].L[0]
+				case *types.Interface:
+					r = rp.vals[0].L[1]
+				}
+				if r == nil {
+					continue
+				}
+				alts := []*Term{B.Eq(r, B.Int(0))}
+				for _, fr0 := range x.freshRefs[entryFresh:] {
+					alts = append(alts, B.Eq(r, fr0))
+				}
+				o := x.oblige("ensures", "fresh-result", rp.pos, rp.pc, B.Or(alts...))
+				o.Extra = map[string]string{"ensures": "fresh: the result is nil or was allocated by this call"}
+			}
+		}
 		// Postconditions are proved per return statement, each in its own state: no
 		// merging of the return paths, so every query stays small.
 		for _, en := range ct.Ensures {
